@@ -1,44 +1,566 @@
 package main
 
-// Rules of C09 added after the rounds of independently authored breaking changes (DESIGN 11.6, 11.7).
+// C09 rules B3..B7, W1. Sites are found by role in the regions of the tunnels (c09.go), values compared by identity
+// (c09_flow.go).
 
 import (
+	"go/token"
+	"go/types"
+	"sort"
+	"strings"
+
 	"golang.org/x/tools/go/ssa"
 )
 
-func runC09B3c(c *Ctx) {
-	cb := c.fn("proxy/tcp", "copyBuffer")
-	if cb == nil {
-		return
-	}
-	eachInstr(cb, func(i ssa.Instruction) {
-		call, ok := i.(*ssa.Call)
-		if !ok || !call.Call.IsInvoke() || call.Call.Method.Name() != "Write" {
-			return
+// ---- B3: copy loops ---------------------------------------------------------------------------------------------------
+
+func isZero(v ssa.Value) bool {
+	k, ok := constInt(v)
+	return ok && k == 0
+}
+
+// c09inLoop: the instruction runs once per iteration of a loop: in a loop of its function, or in a helper all of
+// whose static call sites are in loops.
+func c09inLoop(i ssa.Instruction, depth int) bool {
+	f := i.Parent()
+	for _, l := range loopsOf(f) {
+		if l.Body[i.Block()] {
+			return true
 		}
-		// the read feeding it
-		var rd *ssa.Call
-		eachInstr(cb, func(j ssa.Instruction) {
-			if rc, ok := j.(*ssa.Call); ok && rc.Call.IsInvoke() && rc.Call.Method.Name() == "Read" {
-				rd = rc
+	}
+	sites := gSites[f]
+	if depth >= 2 || len(sites) == 0 || !onlyStaticallyCalled(f) {
+		return false
+	}
+	for _, s := range sites {
+		if s.Parent() == f || !c09inLoop(s, depth+1) {
+			return false
+		}
+	}
+	return true
+}
+
+func runC09B3(c *Ctx, tunnels []*c09tunnel) {
+	done := map[*ssa.Call]bool{}
+	for _, t := range tunnels {
+		// vacuity: the tunnel's region contains something that moves the stream, and every Read into a byte buffer
+		// found there is relayed by a Write of that buffer
+		nCopy := len(t.relays)
+		eachInstrOf(t.reg, func(f *ssa.Function, i ssa.Instruction) {
+			if !t.relayRead[i] && t.isCopyInstr(i) {
+				nCopy++
 			}
 		})
-		if rd == nil {
+		if nCopy == 0 {
+			c.undecided("C09.B3", t.label+"|relay write", "nothing that copies a stream (a Write of a buffer filled by Read, io.Copy) found in the region of this tunnel")
+		}
+		for _, rd := range t.unmatched {
+			name := fnKey(rd.Parent())
+			if rd.Parent() == t.entry {
+				name = t.label + " (handshake relay)"
+			}
+			c.undecided("C09.B3", name+"|relay write", "no Write of a buffer filled by Read found")
+		}
+		for _, r := range t.relays {
+			if done[r.wr] {
+				continue
+			}
+			done[r.wr] = true
+			name := fnKey(r.fn)
+			if r.fn == t.entry {
+				name = t.label + " (handshake relay)"
+			}
+			c09checkRelay(c, name, r)
+		}
+	}
+}
+
+func c09checkRelay(c *Ctx, name string, r c09relay) {
+	f, rd, call, sl := r.fn, r.rd, r.wr, r.sl
+	okSlice := sl != nil && (sl.Low == nil || isZero(sl.Low)) && sl.High != nil
+	if okSlice {
+		e, isE := sl.High.(*ssa.Extract)
+		okSlice = isE && e.Tuple == ssa.Value(rd) && e.Index == 0
+	}
+	// same iteration: the read dominates the write
+	okSlice = okSlice && dominatesInstr(rd, call)
+	c.check("C09.B3", name+"|writes exactly the bytes just read", call.Pos(), okSlice,
+		"the relay must write buf[0:n] with n the count returned by the read of the same buffer in this iteration; anything else drops, duplicates or invents bytes")
+	// short write / write error leave with an error
+	var nw, ew, nr ssa.Value
+	for _, ref := range *call.Referrers() {
+		if e, ok := ref.(*ssa.Extract); ok {
+			if e.Index == 0 {
+				nw = e
+			} else {
+				ew = e
+			}
+		}
+	}
+	for _, ref := range *rd.Referrers() {
+		if e, ok := ref.(*ssa.Extract); ok && e.Index == 0 {
+			nr = e
+		}
+	}
+	isLenOfWritten := func(v ssa.Value) bool {
+		// len(buf[:nr]) is nr
+		lc, ok := v.(*ssa.Call)
+		if !ok || calleeName(&lc.Call) != "builtin.len" || len(lc.Call.Args) != 1 {
+			return false
+		}
+		return sl != nil && lc.Call.Args[0] == ssa.Value(sl)
+	}
+	isNr := func(v ssa.Value) bool { return nr != nil && (v == nr || isLenOfWritten(v)) }
+	shortChecked, errChecked := false, false
+	eachInstr(f, func(j ssa.Instruction) {
+		b, ok := j.(*ssa.BinOp)
+		if !ok {
 			return
 		}
-		isReadErr := func(v ssa.Value) bool { e, ok := v.(*ssa.Extract); return ok && e.Tuple == rd && e.Index == 1 }
-		dep := false
-		for _, ft := range factsAt(call.Block()) {
-			if _, ok := nilFact(ft, isReadErr); ok {
-				dep = true
-			}
-			if b, ok := ft.Cond.(*ssa.BinOp); ok && (isReadErr(b.X) || isReadErr(b.Y)) {
-				dep = true
+		switch b.Op {
+		case token.NEQ, token.EQL, token.LSS, token.GTR, token.LEQ, token.GEQ:
+			if nw != nil && ((isNr(b.X) && b.Y == nw) || (b.X == nw && isNr(b.Y))) {
+				shortChecked = true
 			}
 		}
-		c.check("C09.B3", "proxy/tcp.copyBuffer|bytes returned together with an error are still written", call.Pos(), !dep,
-			"io.Reader may return n > 0 together with an error (crypto/tls returns the last record with io.EOF when close_notify arrives in the same segment); the relay must write buf[0:n] before it examines the read error, otherwise the final bytes of a stream are dropped")
+		if (b.Op == token.NEQ || b.Op == token.EQL) && ew != nil && ((b.X == ew && isNilConst(b.Y)) || (b.Y == ew && isNilConst(b.X))) {
+			errChecked = true
+		}
+	})
+	c.check("C09.B3", name+"|short or failed writes end the relay with an error", call.Pos(), shortChecked && errChecked,
+		"a write that fails or accepts fewer bytes than were read must end the copy (error): continuing silently loses the remainder")
+	// a streaming relay (one Read per iteration) writes what the Read returned before it looks at the Read's error;
+	// a one-shot relay (handshake) may give up on a read error
+	if !c09inLoop(rd, 0) {
+		return
+	}
+	isReadErr := func(v ssa.Value) bool {
+		e, ok := v.(*ssa.Extract)
+		return ok && e.Tuple == ssa.Value(rd) && e.Index == 1
+	}
+	dep := false
+	for _, ft := range factsAt(call.Block()) {
+		if _, ok := nilFact(ft, isReadErr); ok {
+			dep = true
+		}
+		if b, ok := ft.Cond.(*ssa.BinOp); ok && (isReadErr(b.X) || isReadErr(b.Y)) {
+			dep = true
+		}
+	}
+	// ... nor lies behind a branch on the read error that can be taken between the Read and the Write (a compound
+	// condition such as `er != nil && er != io.EOF` leaves no single fact at the Write's block)
+	isRd := func(j ssa.Instruction) bool { return j == ssa.Instruction(rd) }
+	isWr := func(j ssa.Instruction) bool { return j == ssa.Instruction(call) }
+	eachInstr(f, func(j ssa.Instruction) {
+		iff, ok := j.(*ssa.If)
+		if !ok || dep {
+			return
+		}
+		b, ok := iff.Cond.(*ssa.BinOp)
+		if !ok || !(isReadErr(b.X) || isReadErr(b.Y)) {
+			return
+		}
+		if pathAvoiding(rd, iff, isWr) && pathAvoiding(iff, call, isRd) {
+			dep = true
+		}
+	})
+	c.check("C09.B3", name+"|bytes returned together with an error are still written", call.Pos(), !dep,
+		"io.Reader may return n > 0 together with an error (crypto/tls returns the last record with io.EOF when close_notify arrives in the same segment); the relay must write buf[0:n] before it examines the read error, otherwise the final bytes of a stream are dropped")
+}
+
+// ---- B6: Peek --------------------------------------------------------------------------------------------------------
+
+// runC09B6: a Peek on a default-sized bufio.Reader cannot return more than its buffer (4096 bytes):
+// a computed Peek length makes the handler fail for larger first records.
+func runC09B6(t *c09tunnel) {
+	c := t.c
+	eachInstrOf(t.reg, func(f *ssa.Function, i ssa.Instruction) {
+		call, ok := i.(*ssa.Call)
+		if !ok || calleeName(&call.Call) != "(*bufio.Reader).Peek" {
+			return
+		}
+		_, hi, isK := c09intRange(call.Call.Args[1])
+		sized := false
+		derives(call.Call.Args[0], func(v ssa.Value) bool {
+			if _, ok := isCallTo(v, "bufio.NewReaderSize"); ok {
+				sized = true
+			}
+			return false
+		})
+		name := fnKey(f)
+		if f == t.entry {
+			name = t.label
+		}
+		c.check("C09.B6", name+"|Peek length within the reader's buffer", call.Pos(), (isK && hi <= 4096) || sized,
+			"bufio.Reader.Peek(n) fails with ErrBufferFull when n exceeds the reader's buffer (4096 bytes for bufio.NewReader): peeking a computed length (e.g. a whole ClientHello) rejects every connection whose first record is larger; read it with io.ReadFull and replay it instead")
 	})
 }
 
-// ---- C11.M3: wildcard candidates have the label count of the requested name ------------------------------------
+// ---- B4 / B5: PROXY header, replay of consumed bytes --------------------------------------------------------------------
+
+// c09proxyHeaderFn: the function of proxy/tcp that writes the PROXY protocol line: WriteProxyHeader if it still does,
+// otherwise the innermost package-level function whose region builds a string starting with "PROXY " and writes.
+func c09proxyHeaderFn(c *Ctx) *ssa.Function {
+	role := func(f *ssa.Function) bool {
+		if f.Parent() != nil || f.Signature.Recv() != nil {
+			return false
+		}
+		line, writes := false, false
+		eachInstrOf(c.region(f), func(g *ssa.Function, i ssa.Instruction) {
+			for _, op := range i.Operands(nil) {
+				if op != nil && *op != nil {
+					if s, ok := constString(*op); ok && strings.HasPrefix(s, "PROXY ") {
+						line = true
+					}
+				}
+			}
+			if call, ok := i.(*ssa.Call); ok {
+				if _, _, ok := c09ioCall(&call.Call, "Write"); ok {
+					writes = true
+				}
+			}
+		})
+		return line && writes
+	}
+	if f := c.fn("proxy/tcp", "WriteProxyHeader"); f != nil && role(f) {
+		return f
+	}
+	cands := c.fnsWhere("proxy/tcp", role)
+	var inner []*ssa.Function
+	for _, f := range cands {
+		callsOther := false
+		for _, g := range c.region(f) {
+			for _, h := range cands {
+				if g == h && h != f {
+					callsOther = true
+				}
+			}
+		}
+		if !callsOther {
+			inner = append(inner, f)
+		}
+	}
+	if len(inner) == 1 {
+		return inner[0]
+	}
+	return nil
+}
+
+func runC09B4(t *c09tunnel) {
+	c := t.c
+	wph := c09proxyHeaderFn(c)
+	if !c.need("C09.B4", wph, "tcp.WriteProxyHeader") {
+		return
+	}
+	inWph := map[*ssa.Function]bool{}
+	for _, g := range c.region(wph) {
+		inWph[g] = true
+	}
+	// the upstream connection: what a dial in the region returns
+	up := map[c09key]ssa.Value{}
+	eachInstrOf(t.reg, func(f *ssa.Function, i ssa.Instruction) {
+		call, ok := i.(*ssa.Call)
+		if !ok || !contactPrims[calleeName(&call.Call)] || !strings.Contains(calleeName(&call.Call), "Dial") {
+			return
+		}
+		for _, r := range *call.Referrers() {
+			if e, ok := r.(*ssa.Extract); ok && e.Index == 0 {
+				up[c09key{v: call, idx: 1}] = e
+			}
+		}
+	})
+	if len(up) == 0 {
+		c.undecided("C09.B4", t.label+"|upstream connection", "dial result not found")
+		return
+	}
+	upMemo := map[ssa.Value]bool{}
+	isUp := func(v ssa.Value) bool {
+		if r, ok := upMemo[v]; ok {
+			return r
+		}
+		r := c09meet(c09roots(v), up)
+		upMemo[v] = r
+		return r
+	}
+	isHdr := func(i ssa.Instruction) bool {
+		_, isCall := i.(*ssa.Call)
+		return isCall && staticCalleeIs(i, wph)
+	}
+	var hdr []ssa.Instruction
+	eachInstrOf(t.reg, func(f *ssa.Function, i ssa.Instruction) {
+		if !inWph[f] && isHdr(i) {
+			hdr = append(hdr, i)
+		}
+	})
+	isPP := func(v ssa.Value) bool { _, ok := fieldOf(v, "route.Target", "ProxyProto"); return ok }
+	okHdr := len(hdr) > 0
+	for _, h := range hdr {
+		guard := false
+		for _, ft := range factsAt(h.Block()) {
+			if ft.Truth && (isPP(ft.Cond) || derives(ft.Cond, isPP)) {
+				guard = true
+			}
+		}
+		toUp := false
+		for _, a := range callCommon(h).Args {
+			if isUp(a) {
+				toUp = true
+			}
+		}
+		if !guard || !toUp {
+			okHdr = false
+		}
+	}
+	c.check("C09.B5", t.label+"|PROXY protocol header supported", t.entry.Pos(), okHdr,
+		"every tunnel handler must write the PROXY header to the upstream on the Target.ProxyProto edge like its siblings; an upstream configured for the PROXY protocol otherwise parses the client's first bytes as the header")
+
+	// anything that writes to the upstream: Write on it, a copy / formatted write into it, a goroutine that does so
+	var isWriter func(i ssa.Instruction) bool
+	isWriter = func(i ssa.Instruction) bool {
+		if i.Parent() != nil && inWph[i.Parent()] {
+			return false // the header write itself
+		}
+		switch x := i.(type) {
+		case *ssa.Call:
+			if recv, _, ok := c09ioCall(&x.Call, "Write"); ok && isUp(recv) {
+				return true
+			}
+			n := calleeName(&x.Call)
+			if (c09copyFns[n] || n == "io.WriteString" || strings.HasPrefix(n, "fmt.Fprint")) && len(x.Call.Args) > 0 && isUp(x.Call.Args[0]) {
+				return true
+			}
+		case *ssa.Go:
+			if len(x.Call.Args) >= 1 && isUp(x.Call.Args[0]) {
+				return true
+			}
+			for _, fn := range c09goTargets(x) {
+				if !inWph[fn] && mayExec(fn, isWriter, 1) {
+					return true
+				}
+			}
+		}
+		return false
+	}
+	liftWriter := func(i ssa.Instruction) bool {
+		if isHdr(i) {
+			return false
+		}
+		return liftMay(isWriter)(i)
+	}
+	if len(hdr) > 0 {
+		bad := false
+		for _, f := range t.reg {
+			if inWph[f] {
+				continue
+			}
+			var hs, ws []ssa.Instruction
+			eachInstr(f, func(i ssa.Instruction) {
+				if liftMay(isHdr)(i) {
+					hs = append(hs, i)
+				}
+				if liftWriter(i) {
+					ws = append(ws, i)
+				}
+			})
+			for _, h := range hs {
+				for _, w := range ws {
+					if w != h && pathAvoiding(w, h, nil) {
+						bad = true
+					}
+				}
+			}
+		}
+		c.check("C09.B4", t.label+"|PROXY header is the first write on the upstream", hdr[0].Pos(), !bad,
+			"the PROXY line must precede every other byte on the upstream connection; a write that can run before it makes the upstream misparse the stream")
+	}
+
+	// consuming reads before the tunnel starts
+	eachInstrOf(t.reg, func(f *ssa.Function, i ssa.Instruction) {
+		call, ok := i.(*ssa.Call)
+		if !ok {
+			return
+		}
+		n := calleeName(&call.Call)
+		if n != "io.ReadFull" && n != "io.ReadAtLeast" {
+			return
+		}
+		bufRoots := c09roots(call.Call.Args[1])
+		isReplay := func(j ssa.Instruction) bool {
+			wc, ok := j.(*ssa.Call)
+			if !ok {
+				return false
+			}
+			recv, args, ok := c09ioCall(&wc.Call, "Write")
+			return ok && len(args) == 1 && isUp(recv) && c09meet(c09roots(args[0]), bufRoots)
+		}
+		replay := false
+		eachInstrOf(t.reg, func(g *ssa.Function, j ssa.Instruction) {
+			if isReplay(j) {
+				replay = true
+			}
+		})
+		isRead := func(j ssa.Instruction) bool { return j == i }
+		if replay {
+			// no path from the read to a start of the copy goroutines that avoids the replay, in whichever function
+			// of the region the two meet
+			for _, g := range t.reg {
+				var as, bs []ssa.Instruction
+				eachInstr(g, func(j ssa.Instruction) {
+					if liftMay(isRead)(j) {
+						as = append(as, j)
+					}
+					if liftMay(t.isCopyStart)(j) {
+						bs = append(bs, j)
+					}
+				})
+				for _, a := range as {
+					for _, b := range bs {
+						if a != b && pathAvoiding(a, b, isReplay) {
+							replay = false
+						}
+					}
+				}
+			}
+		}
+		name := fnKey(f)
+		if f == t.entry {
+			name = t.label
+		}
+		c.check("C09.B4", name+"|bytes consumed before the tunnel are replayed whole", call.Pos(), replay,
+			"bytes read from the client to make the routing decision (the captured ClientHello) are gone from the connection; the very same buffer must be written to the upstream, whole, before the copy goroutines start — the upstream must see the client's stream from its first byte")
+	})
+}
+
+// ---- B7: no abortive close ---------------------------------------------------------------------------------------------
+
+func runC09B7(c *Ctx, tunnels []*c09tunnel) {
+	// every function of the tunnel packages and of the tunnels' regions
+	seen := map[*ssa.Function]bool{}
+	var fns []*ssa.Function
+	for _, f := range c.AllFns {
+		if rootPkg(f) == c.spkg("proxy/tcp") || rootPkg(f) == c.spkg("proxy") {
+			seen[f] = true
+			fns = append(fns, f)
+		}
+	}
+	for _, t := range tunnels {
+		for _, f := range t.reg {
+			if !seen[f] {
+				seen[f] = true
+				fns = append(fns, f)
+			}
+		}
+	}
+	eachInstrOf(fns, func(f *ssa.Function, i ssa.Instruction) {
+		cc := callCommon(i)
+		if cc == nil || !strings.HasSuffix(calleeName(cc), ".SetLinger") || len(cc.Args) == 0 {
+			return
+		}
+		_, hi, isK := c09intRange(cc.Args[len(cc.Args)-1])
+		c.check("C09.B7", fnKey(f)+"|SetLinger on a tunnel connection", i.Pos(), isK && hi < 0,
+			"SetLinger(n >= 0) makes Close discard data that is still queued (n == 0 sends RST at once): when the other side finishes first, the deferred Close of this connection throws away the tail of the stream — whichever side finishes first must have had all of its data delivered")
+	})
+	c.ob("C09.B7", "proxy, proxy/tcp|no linger override on tunnel connections", token.NoPos, OK, "scanned for SetLinger calls")
+}
+
+// ---- W1: the connection wrapper ------------------------------------------------------------------------------------------
+
+// runC09W1: every struct of proxy/tcp that wraps a net.Conn and is itself a connection (Read, Write, Close) forwards
+// those three unchanged. The wrapper is found by that role, not by its name.
+func runC09W1(c *Ctx) {
+	sp := c.spkg("proxy/tcp")
+	if sp == nil {
+		return
+	}
+	var names []string
+	for n, m := range sp.Members {
+		if _, ok := m.(*ssa.Type); ok {
+			names = append(names, n)
+		}
+	}
+	sort.Strings(names)
+	nWrappers := 0
+	for _, tn := range names {
+		nt := sp.Members[tn].(*ssa.Type).Type()
+		st, _ := nt.Underlying().(*types.Struct)
+		if st == nil {
+			continue
+		}
+		inner := ""
+		for k := 0; k < st.NumFields(); k++ {
+			if typeStr(st.Field(k).Type()) == "net.Conn" {
+				inner = st.Field(k).Name()
+			}
+		}
+		ms := c.Prog.MethodSets.MethodSet(types.NewPointer(nt))
+		if inner == "" || ms.Lookup(sp.Pkg, "Read") == nil || ms.Lookup(sp.Pkg, "Write") == nil || ms.Lookup(sp.Pkg, "Close") == nil {
+			continue
+		}
+		nWrappers++
+		n := 0
+		for _, mn := range []string{"Read", "Write", "Close"} {
+			sel := ms.Lookup(sp.Pkg, mn)
+			key := "(*proxy/tcp." + tn + ")." + mn + "|forwards unchanged to the wrapped connection"
+			detail := "the timeout wrapper sits in every tunnel: " + mn + " must pass its argument to the wrapped connection as received and return its results unchanged"
+			if len(sel.Index()) > 1 {
+				// promoted from the embedded connection: forwarded by construction
+				n++
+				c.ob("C09.W1", key, token.NoPos, OK, detail+" (promoted from the embedded net.Conn)")
+				continue
+			}
+			f := c.Prog.MethodValue(sel)
+			if f == nil || len(f.Blocks) == 0 {
+				continue
+			}
+			n++
+			ok := false
+			eachInstr(f, func(i ssa.Instruction) {
+				call, isC := i.(*ssa.Call)
+				if !isC {
+					return
+				}
+				recv, args, isM := c09ioCall(&call.Call, mn)
+				if !isM {
+					return
+				}
+				if _, isInner := fieldOf(recv, "tcp."+tn, inner); !isInner {
+					return
+				}
+				same := len(args) == len(f.Params)-1
+				for k := range args {
+					if same && args[k] != ssa.Value(f.Params[k+1]) {
+						same = false
+					}
+				}
+				if !same {
+					return
+				}
+				// results handed back unchanged
+				ret := true
+				eachInstr(f, func(j ssa.Instruction) {
+					r, isR := j.(*ssa.Return)
+					if !isR {
+						return
+					}
+					for k, res := range r.Results {
+						if len(r.Results) == 1 {
+							if res != ssa.Value(call) {
+								ret = false
+							}
+						} else if e, isE := res.(*ssa.Extract); !isE || e.Tuple != ssa.Value(call) || e.Index != k {
+							ret = false
+						}
+					}
+				})
+				if ret {
+					ok = true
+				}
+			})
+			c.check("C09.W1", key, f.Pos(), ok, detail)
+		}
+		c.atLeast("C09.W1", "Read/Write/Close of the "+tn+" wrapper", n, 3)
+	}
+	if nWrappers == 0 {
+		c.undecided("C09.W1", "proxy/tcp.conn|wrapper type", "no struct of proxy/tcp wraps a net.Conn and implements Read/Write/Close")
+	}
+}
